@@ -11,7 +11,6 @@ import (
 	"encoding/json"
 	"fmt"
 	"os"
-	"os/exec"
 	"path/filepath"
 	"sort"
 	"strings"
@@ -126,7 +125,7 @@ func init() {
 			}
 			w.Flush()
 			f.Close()
-			if b, err := exec.Command(drv, "dl", in, out).CombinedOutput(); err != nil {
+			if b, err := driverCmd(c, drv, "dl", in, out).CombinedOutput(); err != nil {
 				c.Infra("dl driver: %v\n%s", err, core.Tail(string(b), 2000))
 			}
 			of, _ := os.Open(out)
